@@ -36,9 +36,11 @@ import re
 import select
 import shutil
 import socket
+import struct
 import subprocess
 import sys
 import tempfile
+import time
 
 LEVEL = "exploration"
 ENGINE = "E4-audit+E6-reactorproc (self-contained in c54.py / c54_server.py)"
@@ -438,12 +440,89 @@ class Closed(Exception):
     pass
 
 
+class Pacer:
+    """Keeps the loopback port range usable (pacing only, never a verdict).  A socket closed
+    gracefully by its active closer sits in TIME_WAIT for 60 s and blocks its port for bind(0);
+    thousands of PASV connections per second would exhaust the ephemeral range.  The client
+    therefore resets (SO_LINGER 0) every socket on which nothing more is expected, the few graceful
+    closes that remain (the uploads) go through a token bucket sized from ip_local_port_range / 60 s /
+    nshards, and the kernel's TIME_WAIT count is polled between sessions."""
+
+    def __init__(self, nshards):
+        try:
+            with open("/proc/sys/net/ipv4/ip_local_port_range") as f:
+                lo, hi = map(int, f.read().split())
+        except (OSError, ValueError):
+            lo, hi = 32768, 60999
+        self.span = max(1000, hi - lo)
+        self.rate = max(4.0, self.span / 60.0 / max(1, nshards) * 0.4)
+        self.tokens = self.burst = self.rate * 5
+        self.t = time.monotonic()
+        self.slept = 0.0
+        self.sessions = 0
+
+    def _sleep(self, d):
+        time.sleep(d)
+        self.slept += d
+
+    def graceful_close(self):
+        now = time.monotonic()
+        self.tokens = min(self.burst, self.tokens + (now - self.t) * self.rate)
+        self.t = now
+        self.tokens -= 1
+        if self.tokens < 0:
+            self._sleep(min(2.0, -self.tokens / self.rate))
+
+    def between_sessions(self):
+        self.sessions += 1
+        if self.sessions % 10:
+            return
+        for _ in range(90):
+            try:
+                with open("/proc/net/sockstat") as f:
+                    tw = int(re.search(r"\btw (\d+)", f.read()).group(1))
+            except (OSError, AttributeError, ValueError):
+                return
+            if tw < 0.4 * self.span:
+                return
+            self._sleep(1.0)
+
+
+PACER = Pacer(1)
+
+
+def rst_close(sock):
+    """Close with SO_LINGER(on, 0): a reset frees both ends at once (no TIME_WAIT anywhere).  Only
+    used when nothing more is expected on the socket (EOF already read, or never used)."""
+    try:
+        sock.setsockopt(socket.SOL_SOCKET, socket.SO_LINGER, struct.pack("ii", 1, 0))
+    except OSError:
+        pass
+    try:
+        sock.close()
+    except OSError:
+        pass
+
+
+def connect(port, timeout):
+    """connect() with a short backoff: a transiently exhausted port range is not a verdict."""
+    err = None
+    for delay in (0.0, 0.1, 0.3, 1.0, 2.0, 4.0):
+        if delay:
+            PACER._sleep(delay)
+        try:
+            return socket.create_connection(("127.0.0.1", port), timeout=timeout)
+        except OSError as e:
+            err = e
+    raise err
+
+
 class Client:
     TIMEOUT = 20
 
     def __init__(self, port):
         self.port = port
-        self.sock = socket.create_connection(("127.0.0.1", port), timeout=self.TIMEOUT)
+        self.sock = connect(port, self.TIMEOUT)
         self.buf = b""
         self.data = None
 
@@ -484,12 +563,16 @@ class Client:
             code, text = self.reply()
         return code, text
 
-    def drop_data(self):
+    def drop_data(self, graceful=False):
         if self.data is not None:
-            try:
-                self.data.close()
-            except OSError:
-                pass
+            if graceful:  # the upload must end with a FIN so that the server sees a clean EOF
+                PACER.graceful_close()
+                try:
+                    self.data.close()
+                except OSError:
+                    pass
+            else:
+                rst_close(self.data)
             self.data = None
 
     def command(self, line):
@@ -502,13 +585,24 @@ class Client:
         if verb == "PASV":
             self.drop_data()
             code, text = self.reply()
+            codes = [code]
+            for delay in (0.2, 1.0, 3.0):  # the server could not listen (port range busy): pace and ask again
+                if not (code == 550 and "internal server error" in text):
+                    break
+                PACER._sleep(delay)
+                try:
+                    self.sock.sendall(b"PASV\r\n")
+                except OSError:
+                    raise Closed()
+                code, text = self.reply()
+                codes.append(code)
             m = re.search(r"\((\d+),(\d+),(\d+),(\d+),(\d+),(\d+)\)", text)
             if code == 227 and m:
                 try:
-                    self.data = socket.create_connection(("127.0.0.1", int(m.group(5)) * 256 + int(m.group(6))), timeout=self.TIMEOUT)
+                    self.data = connect(int(m.group(5)) * 256 + int(m.group(6)), self.TIMEOUT)
                 except OSError as e:
                     raise Stall("cannot connect PASV port: %r" % (e,))
-            return [code]
+            return codes
         code, text = self.reply()
         codes = [code]
         if verb in TRANSFER and 100 <= code < 200:
@@ -528,7 +622,7 @@ class Client:
                     raise Stall("data connection silent for %ds" % self.TIMEOUT)
                 except OSError:
                     pass
-                self.drop_data()
+                self.drop_data(graceful=verb in ("STOR", "APPE"))
             code, text = self.final_reply()
             codes.append(code)
             self.moved = moved
@@ -538,10 +632,7 @@ class Client:
 
     def close(self):
         self.drop_data()
-        try:
-            self.sock.close()
-        except OSError:
-            pass
+        rst_close(self.sock)
 
 
 # ---- server subprocess ------------------------------------------------------------------------------
@@ -581,14 +672,14 @@ class Server:
         """Ask the server to dump its log and exit; returns the log or None."""
         log = None
         try:
-            s = socket.create_connection(("127.0.0.1", self.port), timeout=20)
+            s = connect(self.port, 20)
             s.sendall(("XSTOP " + self.token).encode("ascii") + b"\r\n")
             try:
                 while s.recv(4096):
                     pass
             except OSError:
                 pass
-            s.close()
+            rst_close(s)
             self.proc.wait(timeout=30)
             with open(self.out) as f:
                 log = json.load(f)
@@ -807,16 +898,24 @@ def run_batch(ctx, reactor, sessions):
     layout = Layout()
     srv = None
     try:
-        srv = Server(layout, reactor)
+        for delay in (0, 3, 10):  # a server that cannot start (ports busy, loaded box) gets two more chances
+            if delay:
+                ctx.count("server_start_retries")
+                PACER._sleep(delay)
+            srv = Server(layout, reactor)
+            if srv.port is not None or srv.proc.poll() == EXIT_CANNOT_DROP or srv.euid == 0:
+                break
+            srv.kill()
         if srv.port is None:
             why = "could not drop privileges (exit %d)" % EXIT_CANNOT_DROP if srv.proc.poll() == EXIT_CANNOT_DROP else \
-                "still euid 0" if srv.euid == 0 else "did not start (exit %s)" % srv.proc.poll()
+                "still euid 0" if srv.euid == 0 else "did not start after 3 attempts (exit %s)" % srv.proc.poll()
             ctx.inconclusive("%s server %s: %s" % (reactor, why, srv.err_tail()))
             srv.kill()
             return
         ctx.seen("reactors", reactor)
         records = {}
         for s in sessions:
+            PACER.between_sessions()
             try:
                 records[s["case"]] = run_session(ctx, layout, srv.port, s)
             except (Stall, OSError) as e:
@@ -838,6 +937,8 @@ def run_batch(ctx, reactor, sessions):
 
 
 def run(ctx):
+    global PACER
+    PACER = Pacer(ctx.nshards)
     groups = {}
     for i in ctx.cases(300, 20000):  # DESIGN asked 30 k; 30 k took 731 s at load 70 on the shared box, budget is 600 s
         s = gen_session(ctx.case_rng(i), i, ctx.nshards)
@@ -846,6 +947,7 @@ def run(ctx):
         todo = groups.get(reactor, [])
         for k in range(0, len(todo), 400):
             run_batch(ctx, reactor, todo[k:k + 400])
+    ctx.count("pacing_sleep_ms", int(PACER.slept * 1000))  # evidence only: time spent keeping the port range usable
 
 
 def replay(ctx, w):
